@@ -19,7 +19,7 @@ func Load(repoDir string, patterns []string, overlay map[string][]byte, tags str
 		Mode:    packages.LoadAllSyntax,
 		Dir:     repoDir,
 		Overlay: overlay,
-		Env:     append(os.Environ(), "GOFLAGS=-mod=mod", "GOPROXY=off", "CGO_ENABLED=0"),
+		Env:     loaderEnv(),
 	}
 	if tags != "" {
 		cfg.BuildFlags = []string{"-tags=" + tags}
@@ -96,4 +96,20 @@ func (p *Program) CallSites(pkgPath, anchor string) map[string]map[string]bool {
 		}
 	}
 	return out
+}
+
+// loaderEnv: the `go list` driver must be go1.26.8 (x/tools v0.50.0 and the
+// repo's go 1.25.5 directive both need it), whatever PATH / GOTOOLCHAIN the
+// caller has.
+func loaderEnv() []string {
+	var env []string
+	for _, e := range os.Environ() {
+		if strings.HasPrefix(e, "PATH=") || strings.HasPrefix(e, "GOTOOLCHAIN=") || strings.HasPrefix(e, "GOFLAGS=") ||
+			strings.HasPrefix(e, "GOPROXY=") || strings.HasPrefix(e, "CGO_ENABLED=") {
+			continue
+		}
+		env = append(env, e)
+	}
+	return append(env, "PATH=/opt/veriftools/go1.26.8/bin:"+os.Getenv("PATH"), "GOTOOLCHAIN=local",
+		"GOFLAGS=-mod=mod", "GOPROXY=off", "CGO_ENABLED=0")
 }
